@@ -3,12 +3,12 @@
 package harness
 
 import (
-	"strings"
 	"encoding/json"
 	"fmt"
 	"os"
 	"runtime/debug"
 	"sort"
+	"strings"
 	"time"
 
 	"cosmossdk.io/log"
@@ -101,6 +101,10 @@ type TxRecord struct {
 	Msg     sdk.Msg      `json:"-"`
 	Events  []abci.Event `json:"-"`
 	Data    []byte       `json:"-"`
+	// JoinPrev: this record is a further message of the SAME transaction as the record before it (a
+	// multi-message tx is listed message by message; all parts carry the tx's result code and log, the fee,
+	// gas, bytes, data and events sit on the first part only)
+	JoinPrev bool `json:"join_prev,omitempty"`
 }
 
 // BlockRecord is what happened in one committed block.
@@ -444,13 +448,26 @@ func (w *World) Submit(acc *Account, msg sdk.Msg) {
 }
 
 func (w *World) SubmitFee(acc *Account, fee sdk.Coins, msg sdk.Msg) {
-	bz, err := w.Sign(acc, fee, DefaultGas, msg)
+	w.SubmitMultiFee(acc, fee, msg)
+}
+
+// SubmitMultiFee queues ONE signed transaction carrying all the messages (atomic: they succeed together or the
+// whole tx is rolled back).
+func (w *World) SubmitMultiFee(acc *Account, fee sdk.Coins, msgs ...sdk.Msg) {
+	bz, err := w.Sign(acc, fee, DefaultGas, msgs...)
 	if err != nil {
 		panic(fmt.Errorf("sign: %w", err))
 	}
-	js, _ := w.App.AppCodec().MarshalInterfaceJSON(msg)
-	w.Pending = append(w.Pending, TxRecord{Signer: acc.Name, MsgType: sdk.MsgTypeURL(msg), MsgJSON: string(js),
-		Fee: fee.String(), Bytes: bz, Msg: msg})
+	for i, msg := range msgs {
+		js, _ := w.App.AppCodec().MarshalInterfaceJSON(msg)
+		rec := TxRecord{Signer: acc.Name, MsgType: sdk.MsgTypeURL(msg), MsgJSON: string(js), Msg: msg}
+		if i == 0 {
+			rec.Fee, rec.Bytes = fee.String(), bz
+		} else {
+			rec.Fee, rec.JoinPrev = "", true
+		}
+		w.Pending = append(w.Pending, rec)
+	}
 	acc.Seq++ // optimistic; corrected after the block from committed state
 }
 
@@ -458,9 +475,11 @@ func (w *World) SubmitFee(acc *Account, fee sdk.Coins, msg sdk.Msg) {
 // A returned error or a panic is captured in w.BlockErr (C18's observation).
 func (w *World) EndBlock(gap time.Duration) *BlockRecord {
 	hdr := w.nextHeader(gap)
-	txs := make([][]byte, len(w.Pending))
-	for i, p := range w.Pending {
-		txs[i] = p.Bytes
+	var txs [][]byte
+	for _, p := range w.Pending {
+		if !p.JoinPrev {
+			txs = append(txs, p.Bytes)
+		}
 	}
 	rec := BlockRecord{Height: hdr.Height, Time: hdr.Time, Txs: w.Pending}
 	w.Pending = nil
@@ -491,15 +510,22 @@ func (w *World) EndBlock(gap time.Duration) *BlockRecord {
 	}
 	w.Height = hdr.Height
 	w.Time = hdr.Time
+	ri := -1
 	for i := range rec.Txs {
-		r := resp.TxResults[i]
+		if !rec.Txs[i].JoinPrev {
+			ri++
+		}
+		r := resp.TxResults[ri]
 		rec.Txs[i].Code = r.Code
-		rec.Txs[i].GasUsed = r.GasUsed
-		rec.Txs[i].Events = r.Events
-		rec.Txs[i].Data = r.Data
 		if r.Code != 0 {
 			rec.Txs[i].Log = r.Log
 		}
+		if rec.Txs[i].JoinPrev {
+			continue
+		}
+		rec.Txs[i].GasUsed = r.GasUsed
+		rec.Txs[i].Events = r.Events
+		rec.Txs[i].Data = r.Data
 	}
 	rec.Events = resp.Events
 	rec.AppHash = resp.AppHash
